@@ -149,6 +149,8 @@ class PolyFacet:
         f = opaque or (lambda n: False)
         self.opaque = (lambda n: n.id in ids or f(n))   # rule hook: treat node as atom
         self.gather_transparent = gather_transparent
+        # clip(x, -1, 1) in front of arccos / arcsin only guards the domain against rounding
+        self.domain_clip_transparent = False
         self.mask_nodes: Dict[int, Node] = {}
 
     def zw(self, mask: Node):
@@ -390,6 +392,9 @@ class PolyFacet:
             args = n.args[1:1 + n.attr[1]]
             kwn = n.attr[2]
             if q in CAST_FUNCS and args:
+                return self.of(args[0])
+            if q == "numpy.clip" and self.domain_clip_transparent and len(args) == 3 and \
+                    self.of(args[1]).rat.is_const() == -1 and self.of(args[2]).rat.is_const() == 1:
                 return self.of(args[0])
             if q in POW_FUNCS and len(args) == 1:
                 return self.powf(self.of(args[0]), POW_FUNCS[q])
